@@ -2141,7 +2141,10 @@ class Store:
                     'the topology: %s', str(source), str(mismatch_schema))
 
             for port, subschema in schema.items():
-                path = topology.get(port, (port,))
+                # (the children that a glob port describes live in the
+                # store the port is wired to, unless the topology maps
+                # '*' elsewhere)
+                path = topology.get(port, () if port == '*' else (port,))
 
                 if port == '*':
                     subschema_config = {
